@@ -23,8 +23,15 @@ for u in payload['universes']:
         conn.commit()
         conn.execute('PRAGMA foreign_keys = ON')
         rec['tables'] = battery.dump_tables()
-        for cfg in u['configs']:
-            rec['obs'].append(battery.observe(cfg, deep=True, translate_to=u.get('translate_to'),
-                                              searches=u.get('searches')))
+        try:
+            # adversarial relation graphs can make relation_paths enumerate exponentially many simple paths:
+            # such a universe is dropped from the correspondence (counted), never waited for
+            with iutil.time_limit(u.get('time_limit', 8)):
+                for cfg in u['configs']:
+                    rec['obs'].append(battery.observe(cfg, deep=True, translate_to=u.get('translate_to'),
+                                                      searches=u.get('searches')))
+        except iutil.TooSlow:
+            rec['obs'] = None
+            rec['too_slow'] = True
     out.append(rec)
 json.dump(out, sys.stdout)
